@@ -1,4 +1,5 @@
 import H2V.Lemmas.ConnCountsPLocal
+import H2V.Lemmas.ConnCountsPWitness
 /-
   C05 — concurrent-stream limits are honoured in both directions and slots are recycled.
   Property theorems only (lemmas: `H2V/Lemmas/ConnCountsP*.lean`, notes: `ConnCountsPNOTES.md`).
@@ -68,9 +69,41 @@ theorem refusal_is_refused_stream (s : Streams) (w : Writer) (sid : Nat) (hr : s
 /-- non-vacuity (`REFUSED_STREAM` is error code 7) -/
 example : ({ actions := { recv := { refused := some 5 } } } : Streams).recv.refused = some 5 ∧ REFUSED_STREAM = 7 := by decide
 
+/-- **Every stream that closes, by any path, frees its slot — in every reachable state.**
+    `Reach s`: `s` is reachable from the stream state of a fresh client or server connection (any
+    builder configuration) by any sequence of calls of the stream layer's functions that the
+    connection loop and the user handles make (`ApiStep`: all `recv_*` frame handlers, `recv_eof`,
+    `handle_error`, `send_reset`, settings, `poll_complete`, the expiry pass, `send_request`,
+    `send_data`/`send_trailers`/`send_reset`, `poll_*`, capacity calls, clone/drop of every handle,
+    `next_incoming`, `send_response`, …) with arbitrary arguments in arbitrary order.
+    As long as no `assert!` of the real code has fired (`panicked = none`; none is known to be
+    reachable), `num_send_streams + num_recv_streams` — the slots in use in both directions —
+    equals the number of slab entries with `is_counted`.  Hence: a slot is in use only for a stream
+    that is still stored and counted; a stream that has been removed from the store — closed by
+    END_STREAM, reset from either side, refused, cancelled by dropped handles, swept by GOAWAY / EOF —
+    keeps no slot (this is the positive statement for quirk Q6 of ConnNOTES.md, fixed in the real
+    code), and no slot is freed twice. -/
+theorem slots_are_accounted_everywhere {s : Streams} (h : Reach s) (hp : s.panicked = none) :
+    s.counts.numSendStreams + s.counts.numRecvStreams = cntAll s :=
+  (h.inv.2 hp).sum
+
+/-- **Never more concurrently counted peer-initiated streams than advertised — in every reachable
+    state** (`num_recv_streams ≤ max_recv_streams`, the local SETTINGS_MAX_CONCURRENT_STREAMS; the
+    streams beyond are refused by `excess_stream_is_refused`). -/
+theorem advertised_limit_is_never_exceeded {s : Streams} (h : Reach s) (hp : s.panicked = none) :
+    s.counts.numRecvStreams ≤ s.counts.maxRecvStreams :=
+  (h.inv.2 hp).recvLe
+
+/-- non-vacuity of the two theorems above: a reachable state without panic that holds a counted
+    stream (a client after `send_request` and one `poll_complete`) -/
+example : Reach wS2 ∧ wS2.panicked = none ∧ wS2.counts.numSendStreams = 1 ∧ cntAll wS2 = 1 :=
+  ⟨wS2_reach, wS2_facts.1, wS2_facts.2.1, wS2_facts.2.2.2.1⟩
+
 #print axioms requests_wait_at_limit
 #print axioms open_takes_free_slot
 #print axioms excess_stream_is_refused
 #print axioms refusal_is_refused_stream
+#print axioms slots_are_accounted_everywhere
+#print axioms advertised_limit_is_never_exceeded
 
 end H2V.Props.C05
